@@ -123,6 +123,15 @@ func (r *responder) react(e *xt.Node) {
 		case "silent":
 		case "refuse", "error":
 			r.sv.Feed(`<iq xmlns="` + r.ns + `" type="error" id="` + id + `"><error type="cancel"><not-acceptable xmlns="urn:ietf:params:xml:ns:xmpp-stanzas"/></error></iq>`)
+		case "refuse-constraint", "refuse-unavailable", "refuse-bare":
+			// other ways of saying no: the responder prefers smaller blocks, does
+			// not support the protocol, or bounces the request without saying why
+			inner := map[string]string{
+				"refuse-constraint":  `<error type="modify"><resource-constraint xmlns="urn:ietf:params:xml:ns:xmpp-stanzas"/></error>`,
+				"refuse-unavailable": `<error type="cancel"><service-unavailable xmlns="urn:ietf:params:xml:ns:xmpp-stanzas"/></error>`,
+				"refuse-bare":        ``,
+			}[pol]
+			r.sv.Feed(`<iq xmlns="` + r.ns + `" type="error" id="` + id + `">` + inner + `</iq>`)
 		case "cross":
 			// both ends close at the same time: the peer's own <close/> for the
 			// stream arrives before its answer to ours
@@ -212,7 +221,7 @@ func genHelpers(t *rapid.T) hcase {
 	if c.kind == "ibb" {
 		c.origin = rapid.SampledFrom([]string{"local", "local", "peer"}).Draw(t, "origin")
 		c.carrier = rapid.SampledFrom([]string{"iq", "iq", "message"}).Draw(t, "carrier")
-		c.steps = append(c.steps, hstep{op: "open", pol: rapid.SampledFrom([]string{"accept", "accept", "accept", "refuse", "silent"}).Draw(t, "openpol")})
+		c.steps = append(c.steps, hstep{op: "open", pol: rapid.SampledFrom([]string{"accept", "accept", "accept", "accept", "refuse", "refuse-constraint", "refuse-unavailable", "refuse-bare", "silent"}).Draw(t, "openpol")})
 		for i := 0; i < n; i++ {
 			st := hstep{op: rapid.SampledFrom([]string{"write", "write", "peerdata", "read", "readwait", "peerclose", "close", "flush"}).Draw(t, "op")}
 			st.n = rapid.SampledFrom([]int{0, 1, 2, 3, 4, 5, 7, 10, 64}).Draw(t, "n")
@@ -717,7 +726,7 @@ func TestC06Helpers(t *testing.T) {
 		nt := false
 		for _, s := range c.steps {
 			classes = append(classes, "helper-"+c.kind+"-"+s.op)
-			if s.pol == "silent" || s.pol == "error" || s.pol == "refuse" || s.op == "peerclose" {
+			if s.pol == "silent" || s.pol == "error" || strings.HasPrefix(s.pol, "refuse") || s.op == "peerclose" {
 				nt = true
 			}
 		}
